@@ -46,13 +46,14 @@ SOURCES = ['celt/entenc.c', 'celt/entdec.c', 'celt/entcode.c', 'celt/entcode.h',
            'silk/code_signs.c', 'silk/stereo_encode_pred.c', 'silk/NLSF_unpack.c', 'silk/decode_indices.c', 'silk/decode_pulses.c',
            'silk/tables_pulses_per_block.c', 'silk/tables_other.c', 'silk/tables_gain.c', 'silk/tables_pitch_lag.c', 'silk/tables_LTP.c',
            'silk/tables_NLSF_CB_NB_MB.c', 'silk/tables_NLSF_CB_WB.c', 'silk/control_codec.c', 'silk/decoder_set_fs.c', 'silk/define.h',
-           'src/opus_encoder.c', 'src/opus_decoder.c', 'silk/stereo_decode_pred.c', 'silk/decode_frame.c', 'silk/float/encode_frame_FLP.c', 'silk/fixed/encode_frame_FIX.c', 'silk/stereo_LR_to_MS.c']
+           'src/opus_encoder.c', 'src/opus_decoder.c', 'silk/stereo_decode_pred.c', 'silk/decode_frame.c', 'silk/float/encode_frame_FLP.c', 'silk/fixed/encode_frame_FIX.c', 'silk/stereo_LR_to_MS.c',
+           'celt/celt_encoder.c', 'celt/celt_decoder.c', 'celt/bands.c']   # the last three: through C17's / C03's CELT models in opus_frame_lockstep_silk_red_celt
 REQUIRED_THEOREMS = ['OpusProps.C08.rng_normalised', 'OpusProps.C08.tell_frac_bounds', 'OpusProps.C08.tell_frac_formula',
                      'OpusProps.C08.tell_monotone', 'OpusProps.C08.decode_encode', 'OpusProps.C08.lockstep_rng',
                      'OpusProps.C08.decode_encode_patched', 'OpusProps.C08.done_within_budget',
                      'OpusProps.C08.outside_untouched', 'OpusProps.C08.lockstep_symbols', 'OpusProps.C08.silk_flags_roundtrip', 'OpusProps.C08.laplace_pvq_roundtrip',
                      'OpusProps.C08.tell_contracts', 'OpusProps.C08.bytes_below_tell', 'OpusProps.C08.silk_syms_roundtrip_frame', 'OpusProps.C08.silk_syms_roundtrip', 'OpusProps.C08.opus_frame_lockstep_silk', 'OpusProps.C08.opus_frame_lockstep_silk_red',
-                     'OpusProps.C08.opus_frame_lockstep_hybrid']
+                     'OpusProps.C08.opus_frame_lockstep_silk_red_celt', 'OpusProps.C08.opus_frame_lockstep_hybrid']
 UNPROVED = []
 RULE = ('op sequences of length 1..4000 over all nine operation kinds (ec_encode, ec_encode_bin, ec_enc_bit_logp, ec_enc_icdf, '
         'ec_enc_icdf16, ec_enc_uint, ec_enc_bits, ec_enc_patch_initial_bits, ec_enc_shrink) drawn from the seed by a '
@@ -72,7 +73,11 @@ RULE = ('op sequences of length 1..4000 over all nine operation kinds (ec_encode
         '8/10/12/16, isolated large values, full-range +-127), buffer sizes from too small (error path) to 1275. '
         'SILK payloads (rangecoder-silkpacket): streams of 3..14 packets from the real silk_Encode on generated audio segments (silence, '
         'noise, harmonic, chirp; stereo identical / scaled / independent / inverted channels), mono and stereo, NB/MB/WB, 10/20/40/60 ms, '
-        'bitrates 6..40 kb/s per channel, complexity 0..10, LBRR on in 70% of the streams; a case is one packet')
+        'bitrates 6..40 kb/s per channel, complexity 0..10, LBRR on in 70% of the streams; a case is one packet. '
+        'Opus frames (rangecoder-opusframe): streams of 3..12 packets from the real opus_encode forced to SILK-only (16 kHz input, VBR, '
+        'mono / stereo, NB/MB/WB with a bandwidth change before 20% of the packets — these bring the 5 ms redundancy frames, both '
+        'celt_to_silk values —, 10/20/40/60 ms, FEC on in 60% of the streams, max_data_bytes 1276 or 150..400, caller buffer '
+        'pre-filled); a case is one packet; classes: without / with redundancy frame')
 NOT_COVERED = [
     'ec_enc_patch_initial_bits in the round-trip clause is proved (decode_encode_patched) and searched for patch-style '
     'streams only (first op ec_encode_bin(fl,fl+1,n) with 1<=n<=8, patches of the same n): a patch of bits that were not '
@@ -95,8 +100,12 @@ NOT_COVERED = [
     'opus_encode payload bytes and final range); '
     'hybridFrame has none (the implementation side of "decoder final range = encoder final range" is C02\'s lock-step search and '
     'C03\'s ties); the CELT '
-    'symbol layer enters the _silk_red and _hybrid theorems only through the hypothesis CeltFrameRT (C17\'s celt_frame_roundtrip is '
-    'to discharge it) and the CELT encoder\'s operations on the shared coder are an input (`celtOps`); the decoder-side length '
+    'symbol layer enters the _silk_red and _hybrid theorems only through the hypothesis CeltFrameRT; for the redundancy frame (a CELT '
+    'frame on a coder of its own) opus_frame_lockstep_silk_red_celt discharges it with C17\'s celt_frame_roundtrip (non-silent frames; a '
+    'silent redundancy frame — the `ff fe` packets — is not covered by that theorem); for the CELT part of a HYBRID frame it remains a '
+    'hypothesis: C17\'s `World` demands a LegalRun, which excludes the ec_enc_patch_initial_bits of the SILK prefix (C08 provides the '
+    'lock-step hand-over for patched prefixes — decode_flags_prefix_stream — but C17\'s frame theorem is not stated over it), '
+    'and the CELT encoder\'s operations on the shared coder are an input (`celtOps`); the decoder-side length '
     'tests (hgate, hsane) are hypotheses — the contracts C02\'s redundancy_mirror theorems derive from the encoder skeleton; '
     'the "SILK busted its target" fallback, DTX, DRED and the CELT-only mode are outside these theorems',
     'the non-table `#else` variant of ec_tell_frac and USE_SMALL_DIV_TABLE (not compiled on this target)',
